@@ -232,6 +232,26 @@ func runC14(c *Ctx) {
 				rep.Violation("C14/MarshalSm2UnecryptedPrivateKey/error", err.Error(), w(nil))
 			}
 			rep.Eval("pkcs8der/" + k.cls)
+			// an encoding whose embedded public point belongs to another key: whatever the parser returns must be a
+			// consistent key (public point = [d]G), never this scalar paired with the foreign point
+			other := mkKey("other", new(big.Int).Add(k.d, big.NewInt(1)))
+			if other.d.Cmp(new(big.Int).Sub(ref.N, big.NewInt(1))) < 0 {
+				var fder []byte
+				mon.Guard(func() { fder, err = gx509.MarshalSm2UnecryptedPrivateKey(&sm2.PrivateKey{D: k.d, PublicKey: *other.pub()}) })
+				if err == nil && fder != nil {
+					var fb *sm2.PrivateKey
+					var ferr error
+					if pi := mon.Guard(func() { fb, ferr = gx509.ParsePKCS8UnecryptedPrivateKey(fder) }); pi != nil {
+						rep.Violation("C14/PKCS8-DER/panic-on-inconsistent-embedded-point/"+pi.Func, pi.Value, w(nil))
+					} else if ferr == nil && fb != nil {
+						q := ref.MulG(fb.D)
+						if q.X.Cmp(fb.X) != 0 || q.Y.Cmp(fb.Y) != 0 {
+							rep.Violation("C14/PKCS8-DER/parsed-key-is-inconsistent(public-point-not-dG)", "the parser returned the scalar with the foreign embedded point", w(map[string]interface{}{"der": mon.Hex(fder)}))
+						}
+					}
+					rep.Eval("pkcs8der/inconsistent-embedded-point/" + k.cls)
+				}
+			}
 		}
 		// --- public key PEM / DER
 		{
@@ -466,6 +486,10 @@ func runC14Loaders(c *Ctx) {
 			neg := mkKey("negated", new(big.Int).Sub(ref.N, s.k.D))
 			negPEM, _ := gx509.WritePrivateKeyToPem(neg.priv(), nil)
 			expect(api, "sm2/negated-key(n-d)", false, call(s.cert, negPEM), w)
+			// a key file whose scalar belongs to another key while its embedded public point is the certificate's:
+			// the pair does not match (the holder cannot sign for the certificate)
+			franken, _ := gx509.WritePrivateKeyToPem(&sm2.PrivateKey{D: so.k.D, PublicKey: s.k.PublicKey}, nil)
+			expect(api, "sm2/other-scalar-with-the-certificates-public-point-embedded", false, call(s.cert, franken), w)
 			expect(api, "sm2/swapped-inputs", false, call(s.key, s.cert), w)
 			expect(api, "sm2/cert-chain-leaf-first", true, call(append(append([]byte{}, s.cert...), so.cert...), s.key), w)
 			expect(api, "sm2/cert-chain-other-leaf-first", false, call(append(append([]byte{}, so.cert...), s.cert...), s.key), w)
@@ -490,6 +514,10 @@ func runC14Loaders(c *Ctx) {
 			negEPEM, _ := gx509.WritePrivateKeyToPem(negE.priv(), nil)
 			expect(api, "enc-key-negated(n-d)", false, call(s.cert, s.key, e.cert, negEPEM), w)
 			expect(api, "enc-key-mismatch", false, call(s.cert, s.key, e.cert, eo.key), w)
+			frankenE, _ := gx509.WritePrivateKeyToPem(&sm2.PrivateKey{D: eo.k.D, PublicKey: e.k.PublicKey}, nil)
+			expect(api, "enc-key-other-scalar-with-embedded-certificate-point", false, call(s.cert, s.key, e.cert, frankenE), w)
+			frankenS, _ := gx509.WritePrivateKeyToPem(&sm2.PrivateKey{D: so.k.D, PublicKey: s.k.PublicKey}, nil)
+			expect(api, "sign-key-other-scalar-with-embedded-certificate-point", false, call(s.cert, frankenS, e.cert, e.key), w)
 			expect(api, "keys-swapped", false, call(s.cert, e.key, e.cert, s.key), w)
 			expect(api, "certs-swapped", false, call(e.cert, s.key, s.cert, e.key), w)
 		}
